@@ -142,9 +142,13 @@ def decompress_code(codedata):
                 (codedata[in_i - 1] - 0x3c) * 16 +
                 (codedata[in_i] & 0xf))
             length = (codedata[in_i] >> 4) + 2
-            out[out_i:out_i + length] = \
-                out[out_i - offset:out_i - offset + length]
-            out_i += length
+            # (Copy byte by byte: a block may overlap the bytes it produces,
+            # e.g. a run of one character is a block with offset 1.)
+            for _ in range(length):
+                if out_i >= len(out):
+                    out.append(0)
+                out[out_i] = out[out_i - offset]
+                out_i += 1
         in_i += 1
 
     # (A block that starts before code_length can run past it.)
